@@ -29,12 +29,10 @@ ASSUMPTIONS = [
     "structure theorems are cited, not proved: the theorems show that the code computes exactly their criteria",
 ]
 PARTIAL = [
-    "B1 fib lower bound |class t /\\ S_n| >= fib n - evaluated by the oracle on every enumerated basis up to n=9, not proved",
-    "B2 Erdos-Szekeres (finite => empty beyond (a-1)(b-1)) - evaluated by the oracle up to n=10, not proved",
-    "A6 class t is contained in Av(B) when B misses class t (closure of the ten classes under containment) - only the "
-    "monotone case (infinite_never_empty) is proved",
-    "verdict on Basis(B) equals verdict on B (classes closed under containment) - evaluated (basis container), not proved",
-    "Kaiser-Klazar/Huczynska-Vatter and Albert-Linton-Ruskuc iff statements themselves - cited",
+    "Kaiser-Klazar/Huczynska-Vatter and Albert-Linton-Ruskuc iff statements themselves - cited "
+    "(the consequences the property names are proved: B1 C13.nonpolynomial_level_fib / class_fib_lower_bound, "
+    "B2 C13.erdos_szekeres_level / isFinite_iff_eventually_empty, A6 C13.polyClass_closed / class_subset_level, "
+    "Basis(B) vs B C13.verdicts_basisOf)",
 ]
 TRUSTED = ["the structure theorems (polynomial growth, regular insertion encoding) are cited from the literature",
            "Basis(*perms) is modelled by sort + prune with the C01 containment model"]
